@@ -12,6 +12,10 @@ def hooks_commits():
 
 # id -> dict(engine, category, technique, text, note, design_ref)
 CHECKS = {
+ "C13": dict(engine="h_fmt", category="model_checking", design="§3 C13",
+   technique="exhaustive enumeration of writer expressions and formatter configurations + exhaustive abort histories + preemption-bounded exhaustive schedule exploration of concurrent emitters (fresh process per schedule)",
+   text="(1) every writer expression up to depth 3 over three recording sinks and {max level, min level, predicate, tee, or_else} is evaluated on 5 levels x 2 targets against its denotation (which sinks get the record, each asked with the record's metadata); (2) every formatter (full, compact, pretty, json) x 8 option bits x span-event subset x nesting depth runs through the real layer: one factory call with the event's metadata and one newline-terminated write per record, one line for full/compact/json, level, in-scope spans in nesting order with their fields, and every event field present; (3) all sequences up to the stated length of {normal event, event whose Debug panics and is caught, event whose Debug emits an event} on a fresh thread; (4) 2-3 threads emitting through one shared sink under the cooperative scheduler with points at the sink and inside field formatting: every write is exactly one whole record of one event.",
+   note="Field values contain no raw newlines (as the property says). What a format prints for a span (compact: fields only; pretty: leaf to root) is taken from the format, the order/fields/one-write clauses from the property. F8 (dirty buffer after an aborted format) was found here and repaired."),
  "C11": dict(engine="h_filt", category="exploration", design="§3 C11",
    technique="exhaustive enumeration of directive lists from the documented grammar x a metadata universe against a specificity reference model (+ Targets/EnvFilter agreement, would_enable, Display round trip), and explicit-state BFS over enter/exit/record histories for span-scoped directives",
    text="Every list of <= 2 (thorough: <= 3) directives over targets with shared prefixes, field-name lists, level names in mixed case, digits, off, empty and invalid levels, bare levels and bare targets is parsed by Targets and EnvFilter and evaluated on 8 targets x 5 levels x 3 field sets x span/event: the verdict must be that of the most specific matching directive (ties accept both), both filter types must agree wherever both accept, would_enable must equal actual filtering, and printing then parsing must give a filter that prints and decides identically. For 8 span-scoped directive sets (names, targets, field presence, int/bool/string/regex value matchers) all histories up to the stated depth of {open span with an initial field value, record a value, close, events} are checked against 'level raised exactly while a matching span is entered, and for that span'.",
